@@ -155,6 +155,7 @@ class ReplayInterpCtx(ConcreteCtx):
     def setattr(self, o, n, v): return self._t(self.I.setattr(o, n, v))
     def len(self, o): return self._t(self.I.call(len, (o,)))
     def list(self, o): return self._t(list(self.I.iter(o)))
+    def loop_body(self, f, ordinal, local_vars): return SymCtx.loop_body(self, f, ordinal, local_vars)
 
 class TraceCtx(ConcreteCtx):
     def __init__(self, inputs, case):
@@ -355,6 +356,23 @@ def _run_symbolic(ob, case, res, tmo, seed):
     res['goals'] = ngoals
     res['used_contracts'] = sorted(used); res['evaluated'] = sorted(evaluated)
     res['solver_s'] = round(res['solver_s'], 3)
+    if refuted and ob.cls == 'I' and refuted.get('inputs') and not ob.canary:
+        # a loop body cannot be started natively; the solver's model is replayed with CONCRETE values through the evaluator
+        # on the same source text (real objects, CPython arithmetic): it must fail there too, or the refutation is the engine's fault
+        try:
+            val.ACTIVE = set()
+            rc = ReplayInterpCtx(dict(refuted['inputs']), case, Interp())
+            exc = None
+            try: ob.fn(rc)
+            except Failure: exc = 'assumption'
+            except EngineError as e: exc = 'engine: %s' % e
+            except Exception as e: exc = '%s: %s' % (type(e).__name__, safe_str(e))
+            refuted['evaluator_replay'] = {'outcome': 'fails' if (rc.failures or (exc and exc != 'assumption' and not exc.startswith('engine'))) else 'holds',
+                                           'failures': [l for l, i in rc.failures][:5], 'exception': exc}
+        except Exception as e:
+            refuted['evaluator_replay'] = {'outcome': 'error', 'exception': '%s: %s' % (type(e).__name__, e)}
+        finally:
+            val.ACTIVE = set(ob.opaque)
     if refuted:
         res.update(status='refuted', **refuted)
     elif undecided:
